@@ -16,11 +16,29 @@
     * `C03_depthOne_sound_complete`, `C03_depthOne_full_holds`: reported spellings = the spec's
       closure (`C03_at` holds), with the C04 fact as the explicit hypothesis `hSw_C04`;
     * `C03_depthOne_derive_stable`: `derive S (d+1) = derive S 1`.
+  The C04 fact is no longer assumed: `swapsAreBinding_of_C04` derives it from the general theorem
+  `C04.C04_partial` under well-formedness hypotheses (`SigsDistinct`, `KwDistinct`, `OutsideE1E2`);
+  `C03_depthOne_sound_complete_unconditional`, `C03_depthOne_full_holds_unconditional`.
+  TREE fragment — call graphs of ARBITRARY depth (`TreeFragment`: from every root the resolvable
+  call graph unfolds to a tree, arguments are bare identifiers), where the pinned code is right:
+    * `C03_tree_callTree_full`: the BFS tree is the full unfolding (`seen` never cuts);
+    * `C03_tree_result_is_closure`, `C03_tree_storeInv_preserved`: over any store with
+      own ⊆ σ g ⊆ closure g, a root's result is exactly its closure `Clo`, and the invariant is kept;
+    * `C03_tree_sound_complete` (+ `_rank`): first root, reported spellings = `∃ d, derive S d f`
+      (= `derive S (rank f) f`);
+    * `C03_tree_store_invariant`, `C03_tree_any_order`, `C03_tree_full_holds` (`C03_at` holds),
+      `C03_tree_generate_ok`; `C03_chain_sound_complete`: every CHAIN program is in the fragment.
+    * `C03_bare_sound_all_graphs`: with bare arguments the SOUNDNESS half holds for every call
+      graph (diamonds, recursion); only completeness needs the tree shape.
 -/
 import RattrProofs.Lemmas.Results
 import RattrProofs.Lemmas.ResultsCex
 import RattrProofs.Lemmas.ResultsDepthOne
 import RattrProofs.Lemmas.ResultsDepthOneSpec
+import RattrProofs.Lemmas.ResultsTree
+import RattrProofs.Lemmas.ResultsTreeSpec
+import RattrProofs.Lemmas.ResultsTreeCheck
+import RattrProofs.Props.C04
 
 namespace Rattr.C03
 open Rattr Rattr.Results Rattr.Cex
@@ -343,6 +361,306 @@ example : C03_at S1 [0, 1, 2] ∧ Spec.Acyclic S1.prog ∧
     (Spec.derive S1 1 1).sets = [s "b.y.z"] ∧ (Spec.derive S1 1 1).dels = [s "b.y.w"] := by
   obtain ⟨h1, h2, h3, h4, h5, h6, h7⟩ := S1_hyps
   exact ⟨C03_depthOne_full_holds S1 h1 h2 h3 h4 h5 h6 h7 _, depthOne_acyclic h1,
+    by decide +kernel, by decide +kernel, by decide +kernel⟩
+
+/-! ### the C04 fact, discharged from the general C04 theorem -/
+
+/-- the parameter names of every callee's signature are pairwise distinct (Python guarantees it:
+"duplicate argument" is a SyntaxError). -/
+def SigsDistinct (S : Spec.SProg) : Prop :=
+  ∀ g, IsCallee S.prog g → (Spec.sigAt S g).iface.all.Nodup
+
+/-- the keyword keys of every resolvable call are pairwise distinct (Python guarantees it:
+"keyword argument repeated" is a SyntaxError). -/
+def KwDistinct (P : Prog) : Prop :=
+  ∀ f c g, c ∈ (fnAt P f).calls → P.resolve c.cid = some g → (c.args.kwargs.map Prod.fst).Nodup
+
+/-- every resolvable call is outside the two C04 defect classes `E1` (a keyword spelled like a
+positional-only / `*args` / `**kwargs` parameter of a callee with `**kwargs`) and `E2` (a
+positional-only parameter omitted). -/
+def OutsideE1E2 (S : Spec.SProg) : Prop :=
+  ∀ f c g, c ∈ (fnAt S.prog f).calls → S.prog.resolve c.cid = some g →
+    ¬ C04.E1 (Spec.sigAt S g) c.args ∧ ¬ C04.E2 (Spec.sigAt S g) c.args
+
+/-- **The C04 fact is a theorem.** For well-formed inputs outside `E1`/`E2`, on every resolvable
+call Python accepts, `construct_call_swaps` is Python's binding plus stand-ins — from
+`C04.C04_partial`. (That every resolvable call IS accepted is the separate hypothesis
+`AcceptedCalls` of the fragment theorems; this statement is conditional on acceptance.) -/
+theorem swapsAreBinding_of_C04 (S : Spec.SProg) (hSig : SigsDistinct S) (hKw : KwDistinct S.prog)
+    (hE : OutsideE1E2 S) : SwapsAreBinding S := by
+  intro f c g b hc hr hb k
+  have h := C04.C04_partial (si S.prog) (Spec.sigAt S g) c.args (hSig g ⟨f, c, hc, hr⟩)
+    (hKw f c g hc hr) (hE f c g hc hr).1 (hE f c g hc hr).2
+  rw [hb] at h
+  exact h.2 k
+
+/-- `C03_depthOne_sound_complete` without the assumed C04 hypothesis. -/
+theorem C03_depthOne_sound_complete_unconditional (S : Spec.SProg) (hP : DepthOne S.prog)
+    (hC : CidArgs S.prog) (hR : CalleeRootBased S) (hN : NoStarArgs S.prog) (hI : IfaceOfSig S)
+    (hA : AcceptedCalls S) (hSig : SigsDistinct S) (hKw : KwDistinct S.prog) (hE : OutsideE1E2 S)
+    (order : List Key) (rs : List (Key × IrSets)) (σ' : Store)
+    (hgen : generate S.prog order S.own = .ok (rs, σ')) (f : Key) (res : IrSets)
+    (hf : (f, res) ∈ rs) (n : Str) :
+    (n ∈ fulls res.gets ↔ n ∈ (Spec.derive S 1 f).gets) ∧
+    (n ∈ fulls res.sets ↔ n ∈ (Spec.derive S 1 f).sets) ∧
+    (n ∈ fulls res.dels ↔ n ∈ (Spec.derive S 1 f).dels) :=
+  C03_depthOne_sound_complete S hP hC hR hN hI hA (swapsAreBinding_of_C04 S hSig hKw hE)
+    order rs σ' hgen f res hf n
+
+/-- `C03_depthOne_full_holds` without the assumed C04 hypothesis. -/
+theorem C03_depthOne_full_holds_unconditional (S : Spec.SProg) (hP : DepthOne S.prog)
+    (hC : CidArgs S.prog) (hR : CalleeRootBased S) (hN : NoStarArgs S.prog) (hI : IfaceOfSig S)
+    (hA : AcceptedCalls S) (hSig : SigsDistinct S) (hKw : KwDistinct S.prog) (hE : OutsideE1E2 S)
+    (order : List Key) : C03_at S order :=
+  C03_depthOne_full_holds S hP hC hR hN hI hA (swapsAreBinding_of_C04 S hSig hKw hE) order
+
+/-- executable check of the three C04 well-formedness hypotheses. -/
+def c04ReadyB (S : Spec.SProg) : Bool :=
+  edgesB S.prog (fun _ c g =>
+    decide ((Spec.sigAt S g).iface.all.Nodup) && decide ((c.args.kwargs.map Prod.fst).Nodup) &&
+    decide (¬ C04.E1 (Spec.sigAt S g) c.args) && decide (¬ C04.E2 (Spec.sigAt S g) c.args))
+
+theorem c04Ready_of_check {S : Spec.SProg} (h : c04ReadyB S = true) :
+    SigsDistinct S ∧ KwDistinct S.prog ∧ OutsideE1E2 S := by
+  have key := fun f c g hc hr => edges_of_check h f c g hc hr
+  simp only [Bool.and_eq_true, decide_eq_true_eq] at key
+  refine ⟨?_, ?_, ?_⟩
+  · rintro g ⟨f, c, hc, hr⟩; exact (key f c g hc hr).1.1.1
+  · intro f c g hc hr; exact (key f c g hc hr).1.1.2
+  · intro f c g hc hr; exact ⟨(key f c g hc hr).1.2, (key f c g hc hr).2⟩
+
+/-- non-vacuity: the two-callers-one-leaf program meets the well-formedness hypotheses, so
+`C03_at` holds for it with nothing assumed. -/
+example : C03_at S1 [0, 1, 2] := by
+  obtain ⟨h1, h2, h3, h4, h5, h6, _⟩ := S1_hyps
+  obtain ⟨w1, w2, w3⟩ := c04Ready_of_check (S := S1) (by decide +kernel)
+  exact C03_depthOne_full_holds_unconditional S1 h1 h2 h3 h4 h5 h6 w1 w2 w3 _
+
+/-! ### the TREE fragment: call graphs of arbitrary depth -/
+
+/-- **The tree fragment.** -/
+structure TreeFragment (S : Spec.SProg) : Prop where
+  /-- the resolvable call graph is acyclic and unfolds, from every root, to a tree: no call
+  symbol class is reached along two different paths (`Reach`) from one root. -/
+  tree : TreeLike S.prog
+  /-- equal Call symbols of one function have equal arguments (true of all real inputs). -/
+  cid : CidArgs S.prog
+  /-- own names of callees have basename = root variable of the spelling. -/
+  rootBased : CalleeRootBased S
+  /-- every argument of a resolvable call is a bare identifier or an `@` stand-in. -/
+  bare : BareArgs S.prog
+  /-- the interface rattr holds for a callee is the one of its real signature. -/
+  iface : IfaceOfSig S
+  /-- Python accepts every resolvable call (and `**kwargs`, if any, receives something). -/
+  accepted : AcceptedCalls S
+  sigs : SigsDistinct S
+  kws : KwDistinct S.prog
+  c04 : OutsideE1E2 S
+
+theorem TreeFragment.hyps {S : Spec.SProg} (h : TreeFragment S) : TreeHyps S :=
+  ⟨h.cid, h.rootBased, h.bare, h.iface, h.accepted, swapsAreBinding_of_C04 S h.sigs h.kws h.c04⟩
+
+/-- In the tree fragment the BFS call tree of `make_target_ir_call_tree` is the FULL unfolding of
+the resolvable call graph from the root: node 0 is the root; every other node hangs under an
+EARLIER node by a resolvable call of that node's function; and — the point — every resolvable
+call of every node has a child (the tree-global `seen` set never cuts a call). -/
+theorem C03_tree_callTree_full (P : Prog) (hT : TreeLike P) (root : Key) :
+    ∃ nodes, callTree P root = some nodes ∧ FullTree P root nodes := by
+  obtain ⟨nodes, h⟩ := callTree_terminates P root
+  exact ⟨nodes, h, callTree_fullTree hT.2 root nodes h⟩
+
+/-- ONE ROOT over ANY store `σ` with `own ⊆ σ g ⊆ Clo g` for every `g` (`StoreInv` — e.g. the own
+accesses themselves, or the store any earlier roots left behind): the result of the root is
+EXACTLY its closure `Clo` (own accesses ∪ unbound closures of all resolvable callees, at every
+depth). Needs only `TreeLike` and `CidArgs`. -/
+theorem C03_tree_result_is_closure (P : Prog) (hT : TreeLike P) (hC : CidArgs P) (own σ σ' : Store)
+    (hInv : StoreInv P own σ) (f : Key) (res : IrSets) (h : runRoot P σ f = .ok (res, σ'))
+    (k : Kind) (x : NameS) : x ∈ res.of k ↔ Clo P own k f x :=
+  (runRoot_tree hT.2 hC hInv h).1 k x
+
+/-- `StoreInv` (own ⊆ σ g ⊆ closure g, all g) is preserved by generating any sequence of roots;
+every generated root's entry ends up complete. This is what makes later roots right although
+the store is shared and mutated. -/
+theorem C03_tree_storeInv_preserved (P : Prog) (hT : TreeLike P) (hC : CidArgs P)
+    (own σ σ' : Store) (hInv : StoreInv P own σ) (order : List Key) (rs : List (Key × IrSets))
+    (h : generate P order σ = .ok (rs, σ')) :
+    StoreInv P own σ' ∧ ∀ f ∈ order, CompleteAt P own σ' f := by
+  obtain ⟨_, _, a, b⟩ := generate_tree hT.2 hC order σ σ' rs hInv h
+  exact ⟨a, b⟩
+
+theorem tree_mem_iff {S : Spec.SProg} (hF : TreeFragment S) {f : Key} {res : IrSets}
+    (hres : ∀ k x, x ∈ res.of k ↔ Clo S.prog S.own k f x) (n : Str) :
+    (n ∈ fulls res.gets ↔ Spec.DerivableGet S f n) ∧
+    (n ∈ fulls res.sets ↔ Spec.DerivableSet S f n) ∧
+    (n ∈ fulls res.dels ↔ Spec.DerivableDel S f n) := by
+  have key : ∀ k : Kind, (∃ x ∈ res.of k, x.full = n) ↔ ∃ d, n ∈ (Spec.derive S d f).of k := by
+    intro k
+    rw [← clo_iff_derivable hF.hyps k f n]
+    constructor
+    · rintro ⟨x, hx, e⟩; exact ⟨x, (hres k x).mp hx, e⟩
+    · rintro ⟨x, hx, e⟩; exact ⟨x, (hres k x).mpr hx, e⟩
+  unfold fulls
+  simp only [List.mem_map]
+  exact ⟨key .get, key .set, key .del⟩
+
+/-- **(a) C03 in the tree fragment, first root.** For a root processed first (over the own
+accesses), at ANY call depth: a spelling is reported for `f` iff it is derivable for `f` in the
+independent closure spec (`∃ d, · ∈ Spec.derive S d f`), for gets, sets and dels. -/
+theorem C03_tree_sound_complete (S : Spec.SProg) (hF : TreeFragment S) (f : Key) (res : IrSets)
+    (σ' : Store) (h : runRoot S.prog S.own f = .ok (res, σ')) (n : Str) :
+    (n ∈ fulls res.gets ↔ Spec.DerivableGet S f n) ∧
+    (n ∈ fulls res.sets ↔ Spec.DerivableSet S f n) ∧
+    (n ∈ fulls res.dels ↔ Spec.DerivableDel S f n) :=
+  tree_mem_iff hF (runRoot_tree hF.tree.2 hF.cid (StoreInv.refl _ _) h).1 n
+
+/-- …equivalently the unfolding at depth `rank f`, for any rank function witnessing acyclicity. -/
+theorem C03_tree_sound_complete_rank (S : Spec.SProg) (hF : TreeFragment S) (rank : Key → Nat)
+    (hrank : ∀ f c g, c ∈ (fnAt S.prog f).calls → S.prog.resolve c.cid = some g → rank g < rank f)
+    (f : Key) (res : IrSets) (σ' : Store) (h : runRoot S.prog S.own f = .ok (res, σ')) (n : Str) :
+    (n ∈ fulls res.gets ↔ n ∈ (Spec.derive S (rank f) f).gets) ∧
+    (n ∈ fulls res.sets ↔ n ∈ (Spec.derive S (rank f) f).sets) ∧
+    (n ∈ fulls res.dels ↔ n ∈ (Spec.derive S (rank f) f).dels) := by
+  obtain ⟨a, b, c⟩ := C03_tree_sound_complete S hF f res σ' h n
+  have key : ∀ k : Kind, (∃ d, n ∈ (Spec.derive S d f).of k) ↔
+      n ∈ (Spec.derive S (rank f) f).of k :=
+    fun k => ⟨fun ⟨d, hd⟩ => derive_at_rank S rank hrank k d f n hd, fun h => ⟨_, h⟩⟩
+  exact ⟨a.trans (key .get), b.trans (key .set), c.trans (key .del)⟩
+
+/-- **(b) the store invariant of DESIGN §5 C03.** After generating results for any sequence of
+roots, for EVERY function `g` (generated or not): its own accesses are still in its entry, and
+every name in its entry is derivable for `g` — `own g ⊆ σ' g ⊆ Derivable g`. -/
+theorem C03_tree_store_invariant (S : Spec.SProg) (hF : TreeFragment S) (order : List Key)
+    (rs : List (Key × IrSets)) (σ' : Store) (h : generate S.prog order S.own = .ok (rs, σ'))
+    (g : Key) :
+    ((∀ x ∈ (S.own g).gets, x ∈ (σ' g).gets) ∧ (∀ x ∈ (S.own g).sets, x ∈ (σ' g).sets) ∧
+      (∀ x ∈ (S.own g).dels, x ∈ (σ' g).dels)) ∧
+    ((∀ x ∈ (σ' g).gets, Spec.DerivableGet S g x.full) ∧
+      (∀ x ∈ (σ' g).sets, Spec.DerivableSet S g x.full) ∧
+      (∀ x ∈ (σ' g).dels, Spec.DerivableDel S g x.full)) := by
+  obtain ⟨⟨hO, hS⟩, _⟩ := C03_tree_storeInv_preserved S.prog hF.tree hF.cid S.own S.own σ'
+    (StoreInv.refl _ _) order rs h
+  have d := fun k x hx => clo_derivable hF.hyps k g x (hS g k x hx)
+  exact ⟨⟨hO g .get, hO g .set, hO g .del⟩, d .get, d .set, d .del⟩
+
+/-- **(c) C03 in the tree fragment, every root, any order.** Whatever the order of roots — i.e.
+whatever earlier roots wrote into the shared store — the spellings reported for every root are
+exactly the derivable ones. -/
+theorem C03_tree_any_order (S : Spec.SProg) (hF : TreeFragment S) (order : List Key)
+    (rs : List (Key × IrSets)) (σ' : Store) (hgen : generate S.prog order S.own = .ok (rs, σ'))
+    (f : Key) (res : IrSets) (hf : (f, res) ∈ rs) (n : Str) :
+    (n ∈ fulls res.gets ↔ Spec.DerivableGet S f n) ∧
+    (n ∈ fulls res.sets ↔ Spec.DerivableSet S f n) ∧
+    (n ∈ fulls res.dels ↔ Spec.DerivableDel S f n) := by
+  obtain ⟨_, hres, _, _⟩ := generate_tree hF.tree.2 hF.cid order S.own σ' rs (StoreInv.refl _ _) hgen
+  exact tree_mem_iff hF (hres f res hf) n
+
+/-- …hence the FULL statement `C03_at` holds on the tree fragment, for every order. -/
+theorem C03_tree_full_holds (S : Spec.SProg) (hF : TreeFragment S) (order : List Key) :
+    C03_at S order := by
+  intro rs σ' hgen f res hf
+  have key := C03_tree_any_order S hF order rs σ' hgen f res hf
+  refine ⟨?_, ?_, ?_, fun _ => ⟨?_, ?_, ?_⟩⟩
+  · intro x hx; exact (key x.full).1.mp (List.mem_map.mpr ⟨x, hx, rfl⟩)
+  · intro x hx; exact (key x.full).2.1.mp (List.mem_map.mpr ⟨x, hx, rfl⟩)
+  · intro x hx; exact (key x.full).2.2.mp (List.mem_map.mpr ⟨x, hx, rfl⟩)
+  · intro n hn; exact (key n).1.mpr hn
+  · intro n hn; exact (key n).2.1.mpr hn
+  · intro n hn; exact (key n).2.2.mpr hn
+
+/-- In the tree fragment `unbind_name` never raises: `generate` succeeds for every order. -/
+theorem C03_tree_generate_ok (S : Spec.SProg) (hF : TreeFragment S) (order : List Key) :
+    ∃ rs σ', generate S.prog order S.own = .ok (rs, σ') :=
+  generate_tree_ok hF.tree.2 hF.cid (noFail_of_hyps hF.hyps) order S.own (StoreInv.refl _ _)
+
+/-- **Soundness for EVERY call graph.** With bare arguments (and the other hypotheses about the
+analysed program — but NO hypothesis on the shape of the call graph: shared callees, diamonds and
+recursion included), every name the pinned code reports for any root, in any order, is derivable.
+What fails outside the tree fragment is completeness only (`C03_cex_dedupe`). -/
+theorem C03_bare_sound_all_graphs (S : Spec.SProg) (hC : CidArgs S.prog) (hR : CalleeRootBased S)
+    (hB : BareArgs S.prog) (hI : IfaceOfSig S) (hA : AcceptedCalls S) (hSig : SigsDistinct S)
+    (hKw : KwDistinct S.prog) (hE : OutsideE1E2 S) (order : List Key) (rs : List (Key × IrSets))
+    (σ' : Store) (hgen : generate S.prog order S.own = .ok (rs, σ')) (f : Key) (res : IrSets)
+    (hf : (f, res) ∈ rs) :
+    (∀ n ∈ res.gets, Spec.DerivableGet S f n.full) ∧
+    (∀ n ∈ res.sets, Spec.DerivableSet S f n.full) ∧
+    (∀ n ∈ res.dels, Spec.DerivableDel S f n.full) := by
+  have hH : TreeHyps S := ⟨hC, hR, hB, hI, hA, swapsAreBinding_of_C04 S hSig hKw hE⟩
+  obtain ⟨a, _⟩ := generate_sound_all order S.own σ' rs (StoreInv.refl S.prog S.own).2 hgen
+  have d := fun k x hx => clo_derivable hH k f x (a f res hf k x hx)
+  exact ⟨d .get, d .set, d .del⟩
+
+/-- non-vacuity: the C03-dedupe program (a diamond: `leaf(x)` reached on two paths) is OUTSIDE
+the tree fragment, meets the hypotheses of `C03_bare_sound_all_graphs`, and indeed reports only
+derivable names while missing the derivable `b.attr`. -/
+example : ¬ TreeLike Pd ∧ TreeHyps0 Sd ∧
+    (SigsDistinct Sd ∧ KwDistinct Sd.prog ∧ OutsideE1E2 Sd) ∧
+    getsOf Pd σd [0, 1, 2, 3] 0 = some [s "a", s "b", s "a.attr"] := by
+  refine ⟨?_, treeHyps0_of_check (by decide +kernel), c04Ready_of_check (by decide +kernel),
+    by decide +kernel⟩
+  intro hT
+  have r1 : Reach Pd 0 ([0] ++ [2]) 3 :=
+    Reach.cons (c := call 0 "one" ["a"]) (by decide) rfl
+      (Reach.cons (c := call 2 "leaf" ["x"]) (by decide) rfl (Reach.nil 3))
+  have r2 : Reach Pd 0 ([1] ++ [2]) 3 :=
+    Reach.cons (c := call 1 "two" ["b"]) (by decide) rfl
+      (Reach.cons (c := call 2 "leaf" ["x"]) (by decide) rfl (Reach.nil 3))
+  exact absurd (hT.2 0 [0] [1] 2 3 3 r1 r2) (by decide)
+
+/-- CHAIN programs (acyclic, every function has at most one resolvable call; a function may
+be called from many functions and roots) are in the tree fragment: along the single path from a
+root no cid repeats, because the graph is acyclic. -/
+theorem C03_chain_treeLike (P : Prog) (h : Chain P) : TreeLike P := chain_treeLike h
+
+/-- C03 for chains of any length, every root, any order. -/
+theorem C03_chain_sound_complete (S : Spec.SProg) (hCh : Chain S.prog) (hC : CidArgs S.prog)
+    (hR : CalleeRootBased S) (hB : BareArgs S.prog) (hI : IfaceOfSig S) (hA : AcceptedCalls S)
+    (hSig : SigsDistinct S) (hKw : KwDistinct S.prog) (hE : OutsideE1E2 S) (order : List Key)
+    (rs : List (Key × IrSets)) (σ' : Store) (hgen : generate S.prog order S.own = .ok (rs, σ'))
+    (f : Key) (res : IrSets) (hf : (f, res) ∈ rs) (n : Str) :
+    (n ∈ fulls res.gets ↔ Spec.DerivableGet S f n) ∧
+    (n ∈ fulls res.sets ↔ Spec.DerivableSet S f n) ∧
+    (n ∈ fulls res.dels ↔ Spec.DerivableDel S f n) :=
+  C03_tree_any_order S ⟨chain_treeLike hCh, hC, hR, hB, hI, hA, hSig, hKw, hE⟩ order rs σ' hgen
+    f res hf n
+
+/-- non-vacuity, the 4-function chain `a → b → c → d` (depth three, bare arguments): it is in the
+fragment, `C03_at` holds, generation succeeds, and `a` reports the names of `d` three levels
+down rewritten to its own parameter. -/
+example : Chain Pchain ∧ TreeFragment Schain ∧ C03_at Schain [0, 1, 2, 3] ∧
+    getsOf Pchain σchain [0, 1, 2, 3] 0 = some [s "x.a0", s "x.b0", s "x.d0"] ∧
+    setsOf Pchain σchain [3, 1, 0, 2] 0 = some [s "x.c0"] ∧
+    (Spec.derive Schain 3 0).gets = [s "x.a0", s "x.b0", s "x.d0"] := by
+  have hF : TreeFragment Schain := by
+    obtain ⟨w1, w2, w3⟩ := c04Ready_of_check (S := Schain) (by decide +kernel)
+    exact ⟨Pchain_treeLike, Schain_hyps0.cid, Schain_hyps0.rootBased, Schain_hyps0.bare,
+      Schain_hyps0.iface, Schain_hyps0.accepted, w1, w2, w3⟩
+  exact ⟨Pchain_chain, hF, C03_tree_full_holds Schain hF _, by decide +kernel, by decide +kernel,
+    by decide +kernel⟩
+
+/-- non-vacuity, the 5-function binary tree `top → {l → {ll, lr}, r}` with swapped arguments. -/
+example : TreeFragment Stree ∧ C03_at Stree [0, 1, 2, 3, 4] ∧
+    setsOf Ptree σtree [0, 1, 2, 3, 4] 0 = some [s "p.x"] ∧
+    (Spec.derive Stree 2 0).sets = [s "p.x"] ∧ (Spec.derive Stree 2 0).dels = [s "q.y"] := by
+  have hF : TreeFragment Stree := by
+    obtain ⟨w1, w2, w3⟩ := c04Ready_of_check (S := Stree) (by decide +kernel)
+    exact ⟨Ptree_treeLike, Stree_hyps0.cid, Stree_hyps0.rootBased, Stree_hyps0.bare,
+      Stree_hyps0.iface, Stree_hyps0.accepted, w1, w2, w3⟩
+  exact ⟨hF, C03_tree_full_holds Stree hF _, by decide +kernel, by decide +kernel,
+    by decide +kernel⟩
+
+/-- non-vacuity of (b)/(c), two roots sharing the NON-LEAF callee `g` (`r1 → g → h`, `r2 → g`):
+whichever root is generated second reads the entry of `g` that the first one already closed, and
+still reports exactly the derivable names. -/
+example : TreeFragment Sshare ∧ C03_at Sshare [0, 1, 2, 3] ∧ C03_at Sshare [2, 1, 3, 0] ∧
+    getsOf Pshare σshare [0, 1, 2, 3] 1 = some [s "b.q"] ∧
+    setsOf Pshare σshare [0, 1, 2, 3] 1 = some [s "b.z"] ∧
+    setsOf Pshare σshare [2, 1, 3, 0] 1 = some [s "b.z"] ∧
+    storeAfter Pshare σshare [0] 2 = some ⟨[nm "x.q" "x"], [nm "x.z" "x"], []⟩ := by
+  have hF : TreeFragment Sshare := by
+    obtain ⟨w1, w2, w3⟩ := c04Ready_of_check (S := Sshare) (by decide +kernel)
+    exact ⟨Pshare_treeLike, Sshare_hyps0.cid, Sshare_hyps0.rootBased, Sshare_hyps0.bare,
+      Sshare_hyps0.iface, Sshare_hyps0.accepted, w1, w2, w3⟩
+  exact ⟨hF, C03_tree_full_holds Sshare hF _, C03_tree_full_holds Sshare hF _, by decide +kernel,
     by decide +kernel, by decide +kernel, by decide +kernel⟩
 
 end Rattr.C03
